@@ -293,8 +293,17 @@ func ruleResolvedCalls(c *Ctx) {
 				}
 			default:
 				// a fatal return (the RPC ends with an error) announces nothing
-				if rs, ok := p.EndNode.(*ast.ReturnStmt); ok && len(rs.Results) > 0 && !isNilIdent(info, rs.Results[len(rs.Results)-1]) && len(res) == 0 {
-					continue
+				// (an error built on the spot, or a local known to hold one — not the result of some call, which may
+				// well be nil: `return helper(…)` is not a fatal return)
+				if rs, ok := p.EndNode.(*ast.ReturnStmt); ok && len(rs.Results) > 0 && len(res) == 0 {
+					last := rs.Results[len(rs.Results)-1]
+					isErr := strings.HasPrefix(classifyValue(info, fi.Decl, last, 0), "err(")
+					if o := objOfIdent(info, last); o != nil && factsAfter(info, p, -1, len(p.Events)).Obj(o) == +1 {
+						isErr = true
+					}
+					if isErr {
+						continue
+					}
 				}
 				// deletes of a key that was not installed have nothing to announce
 				if spec.op == "Delete" && len(res) == 0 && md.mid != nil && f.Obj(md.mid) == -1 {
@@ -320,7 +329,7 @@ func ruleResolvedCalls(c *Ctx) {
 				switch {
 				case op != spec.op:
 					bad[k.Table] = "resolved-entry notification announces " + op + ", want constants." + spec.op
-				case objOfIdent(info, call.Args[1]) != niParam:
+				case frameArgRoot(info, fi.Decl, objOfIdent(info, call.Args[1])) != niParam:
 					bad[k.Table] = "resolved-entry notification is not tagged with the operation's network instance"
 				case aft != "const:"+k.ConstAFT:
 					bad[k.Table] = "resolved-entry notification for a " + k.Table + " names table " + aft + ", want constants." + k.ConstAFT
